@@ -12,8 +12,11 @@ import time
 
 import common
 
-TOKEN_EVENTS = {'JsSetup', 'JobStart', 'TokGet', 'CheatEat', 'TokCreate', 'TokRel', 'Reap', 'Cheat', 'ForceReturn',
+TOKEN_EVENTS = {'LockWait', 'JsSetup', 'JobStart', 'TokGet', 'CheatEat', 'TokCreate', 'TokRel', 'Reap', 'Cheat', 'ForceReturn',
                 'CheatPut', 'SelfCheck', 'Exit', 'WorkBegin', 'WorkEnd', 'WorldTake', 'WorldPut', 'WorldCount'}
+
+
+LOG_LOCK_MAGIC = 0x10000000
 
 
 class TraceError(Exception):
@@ -113,6 +116,8 @@ def jobs_runs(evs, world=None):
         else:
             if pid not in setup:
                 continue            # a process without a jobserver (redo-log, redo-stamp, ...)
+            if name == 'LockWait' and (ev.get('fid', 0) == 0 or ev.get('fid', 0) >= LOG_LOCK_MAGIC):
+                continue
             d = domain(pid)
         if d not in runs:
             su = setup.get(d)
@@ -205,6 +210,13 @@ def locks_run(evs):
                 out.append({'ev': 'Take', 'pid': pid, 'fid': fid})
         elif n == 'LockRel':
             out.append({'ev': 'Rel', 'pid': pid, 'fid': fid})
+        elif n == 'LockWait':
+            if fid and fid < LOG_LOCK_MAGIC:
+                out.append({'ev': 'Wait', 'pid': pid, 'fid': fid})
+        elif n == 'RowLoad':
+            if out and out[-1]['ev'] == 'Load' and out[-1]['pid'] == pid and out[-1]['fid'] == ev['id']:
+                continue
+            out.append({'ev': 'Load', 'pid': pid, 'fid': ev['id']})
         elif n == 'Verdict':
             out.append(dict({'ev': 'Verdict', 'pid': pid, 'fid': fid}, **ctx(pid)))
         elif n == 'StartSelf':
@@ -243,6 +255,10 @@ def db_run(evs, census=None):
             out.append({'ev': 'TxBegin', 'pid': pid, 'mode': 'imm' if 'IMMEDIATE' in ev['mode'] or 'EXCLUSIVE' in ev['mode'] else 'def'})
         elif n == 'RowSave':
             out.append({'ev': 'RowSave', 'pid': pid, 'id': ev['id'], 'gen': bool(ev['gen']), 'ovr': bool(ev['ovr']),
+                        'checked': _nn(ev['checked'], -1), 'changed': _nn(ev['changed'], -1),
+                        'failed': _nn(ev['failed'], -1), 'stamp': _nn(ev['stamp'], ''), 'csum': _nn(ev['csum'], '')})
+        elif n == 'Decide':
+            out.append({'ev': 'Decide', 'pid': pid, 'fid': ev['fid'], 'gen': bool(ev['gen']), 'ovr': bool(ev['ovr']),
                         'checked': _nn(ev['checked'], -1), 'changed': _nn(ev['changed'], -1),
                         'failed': _nn(ev['failed'], -1), 'stamp': _nn(ev['stamp'], ''), 'csum': _nn(ev['csum'], '')})
         elif n == 'DepAdd':
